@@ -264,3 +264,25 @@ func (c *Chain) BlockedAddrs() []string {
 	sort.Strings(out)
 	return out
 }
+
+// GovSetParams changes single parameters of a module by key, the way a passed parameter-change
+// proposal does (x/params Subspace.Update: amino-JSON value, the pair's validator, the store key of
+// the pair) — not through the keeper's whole-struct SetParams, to which a mix-up of keys is invisible.
+// `changes` maps the store key to the new int64 value.  Applied in order of the sorted keys.
+func (c *Chain) GovSetParams(ctx sdk.Context, subspace string, changes map[string]int64) error {
+	ss, ok := c.A.VerifSubspace(subspace)
+	if !ok {
+		return fmt.Errorf("no subspace %s", subspace)
+	}
+	keys := make([]string, 0, len(changes))
+	for k := range changes {
+		keys = append(keys, k)
+	}
+	sort.Strings(keys)
+	for _, k := range keys {
+		if err := ss.Update(ctx, []byte(k), []byte(fmt.Sprintf("\"%d\"", changes[k]))); err != nil {
+			return err
+		}
+	}
+	return nil
+}
